@@ -204,9 +204,24 @@ func (e *Exec) callStatic(st *State, fr *Frame, fn *ssa.Function, bindings, args
 			names = append(names, p.Name())
 		}
 		allArgs := args
-		res := e.byContract(st, fr, key, ct, names, allArgs, resultType(c), instr)
-		e.setResult(fr, ret, res, isDefer)
-		return nil, false
+		if !e.prog.staleContracts[key] {
+			snap := st.clone()
+			nobl := len(e.obls)
+			res, cerr := e.tryByContract(st, fr, key, ct, names, allArgs, resultType(c), instr)
+			if cerr == "" {
+				e.setResult(fr, ret, res, isDefer)
+				return nil, false
+			}
+			// the contract does not fit the function any more (e.g. after a
+			// refactoring): restore the state and fall back to the body
+			e.prog.staleContracts[key] = true
+			e.stale[fmt.Sprintf("contract of %s cannot be evaluated at a call site (%s): callee inlined instead", key, cerr)] = true
+			*st = *snap
+			fr = st.top()
+			e.obls = e.obls[:nobl]
+		} else {
+			e.stale[fmt.Sprintf("contract of %s is stale: callee inlined instead", key)] = true
+		}
 	}
 	if fn.Blocks != nil && len(st.Frames) < maxInlineDepth {
 		for _, f := range st.Frames {
@@ -234,6 +249,20 @@ func (e *Exec) callStatic(st *State, fr *Frame, fn *ssa.Function, bindings, args
 	e.unspec[full] = true
 	e.setResult(fr, ret, e.freshResult(c), isDefer)
 	return nil, false
+}
+
+// tryByContract is byContract with contract errors returned instead of raised.
+func (e *Exec) tryByContract(st *State, fr *Frame, key string, ct *Contract, names []string, args []Value, rt types.Type, instr ssa.Instruction) (res Value, cerr string) {
+	defer func() {
+		if r := recover(); r != nil {
+			if ce, ok := r.(contractError); ok {
+				cerr = ce.msg
+				return
+			}
+			panic(r)
+		}
+	}()
+	return e.byContract(st, fr, key, ct, names, args, rt, instr), ""
 }
 
 // byContract applies a callee contract at a call site: assert requires,
@@ -345,7 +374,7 @@ func (e *Exec) byContract(st *State, fr *Frame, key string, ct *Contract, names 
 	if rt != nil {
 		res = e.materialize(fmt.Sprintf("%s!%s.result", sanitize(key), callTag), rt)
 	}
-	post := &Env{e: e, st: st, old: pre, vars: map[string]Value{}, pos: false, pkgName: ct.Pkg}
+	post := &Env{e: e, st: st, old: pre, vars: map[string]Value{}, pos: false, pkgName: ct.Pkg, atCallSite: true}
 	for k, v := range env.vars {
 		post.vars[k] = v
 	}
@@ -384,9 +413,16 @@ func (e *Exec) byContract(st *State, fr *Frame, key string, ct *Contract, names 
 			st.assume(post.evalBool(en.E))
 		}()
 	}
+	// ghost updates: right-hand sides read the pre-call values of ghost globals
+	genv := post.sub()
+	genv.ghostFromOld = true
+	newGhost := map[string]Value{}
 	for _, gs := range ct.GhostSet {
-		st.Ghost[gs.Name] = post.eval(gs.E)
-		st.Writes["ghost:"+gs.Name] = true
+		newGhost[gs.Name] = genv.eval(gs.E)
+	}
+	for k, v := range newGhost {
+		st.Ghost[k] = v
+		st.Writes["ghost:"+k] = true
 	}
 	for _, cb := range cbs {
 		cb.env.pos = false
@@ -413,7 +449,11 @@ func (e *Exec) byContract(st *State, fr *Frame, key string, ct *Contract, names 
 			if res != nil {
 				senv.vars["callresult"] = res
 			}
-			g := senv.evalBool(sc.Clause.E)
+			g, cerr := senv.tryEvalBool(sc.Clause.E)
+			if cerr != "" {
+				e.stale[fmt.Sprintf("proof cut %s of %s cannot be evaluated (%s): skipped", sc.Callee, e.unit, cerr)] = true
+				continue
+			}
 			name := fmt.Sprintf("assert-after(%s)[%s]", want, joinLabels(sc.Clause.Labels))
 			e.emit(st, name, "assert", sc.Clause.Labels, g, fmt.Sprintf("%s:%d", sc.Clause.File, sc.Clause.Line))
 			st.assume(g)
